@@ -7,6 +7,7 @@ import SciVerif.Lemmas.C10k
 import SciVerif.Lemmas.C10n
 import SciVerif.Lemmas.C10p
 import SciVerif.Lemmas.C10q
+import SciVerif.Lemmas.C10r
 import SciVerif.Facts.C10Table
 
 /-!
@@ -215,6 +216,34 @@ theorem C10_counts_text_chain_group_partial (valid : Str → Bool) (f : F) (hwf 
   exact C10_counts_text_partial valid f hwf hok (preprocess_chainGroup f hf hsh)
     (render_chainGroup_ne_nil f hf hsh)
 
+/-- Largest proved fragment of `C10_preprocess_statement` with parentheses: a SEQUENCE of units
+    `u₁ ␣* u₂ ␣* … uₙ` (`F.units`, right-nested juxtapositions), each unit a parenthesis-free
+    formula (species, counts, any blanks, merged capital runs, explicit ` + `) or a parenthesised
+    parenthesis-free group without or with a count, separated by any number of blanks — also none,
+    except that a parenthesis-free unit directly after a group needs at least one blank:
+    `(OH)2(CH3)3`, `Ca(OH)2 (H2O)6`, `(NH4)2 S O4`, `K4 (Fe (CN)6)`-like nesting excluded.
+    All four passes on the whole text: pass 1 as a counted sequence of single substitutions, unit
+    by unit from the left, never across a parenthesis; pass 2 per unit; pass 3 rewrites `X␣*(` and
+    `)n␣*(` into `… + (`, and nothing else (its look-ahead from inside a group's last word runs over
+    `)n` and the blanks); pass 4 rewrites `)n + (` into `) * n + (` and `)n␣⁺X` into `) * n + X`
+    (its look-ahead run `[^+*)\s]*` ends inside the next unit).
+    Still missing for the full statement: nested groups, `)nX` without a blank, an explicit ` + `
+    directly next to a parenthesis, a trailing explicit ` * n`, left-nested ASTs of the same text. -/
+theorem C10_preprocess_units_partial (f : F) (hf : f.units) (hs : f.spAll SpeciesShape) :
+    preprocess (render f) = renderExplicit f :=
+  (preprocess_units f hf hs).1
+
+/-- TEXT level, unconditional, SHORT notation, sequences of parenthesis-free units and
+    parenthesised groups with counts: `Substance(text)` through the whole modelled pipeline has
+    exactly the expanded counts. -/
+theorem C10_counts_text_units_partial (valid : Str → Bool) (f : F) (hwf : f.wf = true)
+    (hf : f.units) (hs : f.spAll fun s => SpeciesShape s ∧ valid s = true) :
+    substanceOf valid (render f) = some ((expand f).map fun kn => (kn.1, (kn.2 : Rat))) := by
+  have hsh : f.spAll SpeciesShape := spAll_mono (fun s h => h.1) f hs
+  have hok : f.spAll (SpeciesOK valid) :=
+    spAll_mono (fun s h => speciesOK_of_text valid s (speciesText_of_shape s h.1) h.2) f hs
+  exact C10_counts_text_partial valid f hwf hok (preprocess_units f hf hsh).1 (preprocess_units f hf hsh).2
+
 /-- each species is counted exactly as often as it occurs in the expanded formula, and no
     species is listed twice -/
 theorem C10_count_of_species {α : Type} [Semiring α] (f : F) (k : Str) :
@@ -393,6 +422,26 @@ example : exChainGroup.spAll (fun s => SpeciesShape s ∧ (fun _ => true) s = tr
     fun u hu => ⟨[u], [], by simp, Or.inl rfl, Or.inl ⟨u, hu, rfl⟩⟩
   exact ⟨⟨⟨['A', 'l'], [], by simp, Or.inl rfl, Or.inr (Or.inl ⟨'A', 'l', by decide, by decide, rfl⟩)⟩, rfl⟩,
     ⟨one 'S' (by decide), rfl⟩, ⟨one 'O' (by decide), rfl⟩⟩
+/-- the hypotheses of the units theorems are satisfiable: `exF` = `(OH)2(CH3)3`, and
+    `Ca(OH)2 (H2O)6 Cl` ↦ Ca O8 H14 Cl -/
+example : exF.units := Or.inr ⟨Or.inr ⟨trivial, trivial⟩, Or.inr ⟨trivial, trivial⟩, by decide, by decide⟩
+def exUnits : F :=
+  .seq 0 (.sp ['C', 'a'])
+    (.seq 1 (.count (.group (.seq 0 (.sp ['O']) (.sp ['H']))) 2)
+      (.seq 1 (.count (.group (.seq 0 (.count (.sp ['H']) 2) (.sp ['O']))) 6) (.sp ['C', 'l'])))
+example : exUnits.wf = true ∧ exUnits.units ∧
+    String.ofList (render exUnits) = "Ca(OH)2 (H2O)6 Cl" ∧
+    String.ofList (renderExplicit exUnits) = "Ca + (O + H) * 2 + (H * 2 + O) * 6 + Cl" ∧
+    expand exUnits = [(['C', 'a'], 1), (['O'], 8), (['H'], 14), (['C', 'l'], 1)] :=
+  ⟨by decide,
+   Or.inr ⟨Or.inl trivial,
+     Or.inr ⟨Or.inr ⟨trivial, trivial⟩,
+       Or.inr ⟨Or.inr ⟨trivial, trivial⟩, Or.inl trivial, by decide, by decide⟩, by decide, by decide⟩,
+     by decide, by decide⟩,
+   by decide +kernel, by decide +kernel, by decide +kernel⟩
+/-- … and evaluating the model pipeline on that text gives the same as the theorem says -/
+example : substanceOf (fun _ => true) (render exUnits) =
+    some [(['C', 'a'], 1), (['O'], 8), (['H'], 14), (['C', 'l'], 1)] := by decide +kernel
 /-- transparency is not vacuous: the capital run `CH` before `)` is matched as in the closed text -/
 example : matchP "CH)3".toList = some (2, ['C', 'H'], [], [], ")3".toList) := by decide +kernel
 
